@@ -437,4 +437,259 @@ theorem resize_seg_ext_den (h t : Int) (m : Mod) (lo hi : Int)
     rw [← den_seg_slice _ _ _ _ (by split <;> omega) (by omega) (by unfold gabs; repeat' split <;> omega)]
     rw [if_neg (by repeat' split <;> omega)]
     congr 2 <;> omega
+/-! ### `mirror` is the change of coordinates to the reverse-complemented record -/
+
+theorem fwd_irange_eq (a : Int) (n : Nat) :
+    fwd (irange a n) = (List.range n).map fun (i : Nat) => ((a + (i : Int), false) : Pos) := by
+  induction n generalizing a with
+  | zero => rfl
+  | succ n ih =>
+    have h := ih (a + 1)
+    simp only [fwd] at h ⊢
+    rw [irange_succ, List.map_cons, h, List.range_succ_eq_map, List.map_cons, List.map_map]
+    congr 1
+    · simp
+    · apply List.map_congr_left; intro i _
+      simp only [Function.comp, Prod.mk.injEq, and_true]; omega
+
+theorem flipDen_fwd_irange (a : Int) (n : Nat) :
+    flipDen (fwd (irange a n)) = (List.range n).map fun (i : Nat) => ((a + n - 1 - (i : Int), true) : Pos) := by
+  induction n generalizing a with
+  | zero => rfl
+  | succ n ih =>
+    have h := ih (a + 1)
+    rw [irange_succ, show fwd (a :: irange (a + 1) n) = [(a, false)] ++ fwd (irange (a + 1) n) from rfl,
+      flipDen_append, h, List.range_succ, List.map_append]
+    congr 1
+    · apply List.map_congr_left; intro i _; simp; omega
+    · simp [flipDen]; omega
+
+/-- a non-empty segment and its mirror image read mirrored residues, in the same order -/
+theorem den_mirror_seg (L h t : Int) (hne : h ≠ t) :
+    den (mirror L (seg h t)) = (den (seg h t)).map (mirrorPos L) := by
+  simp only [mirror, den]
+  by_cases hth : t < h
+  · rw [if_neg (by omega), if_pos hth, flipDen_fwd_irange, fwd_irange_eq, List.map_map]
+    rw [show (L - t - (L - h)).toNat = (h - t).toNat by omega]
+    apply List.map_congr_left; intro i hi
+    simp only [Function.comp, mirrorPos, Bool.not_true, Prod.mk.injEq, and_true]
+    have : (i : Int) < (h - t).toNat := by exact_mod_cast List.mem_range.mp hi
+    omega
+  · rw [if_pos (by omega), if_neg hth, flipDen_fwd_irange, fwd_irange_eq, List.map_map]
+    rw [show (L - h - (L - t)).toNat = (t - h).toNat by omega]
+    apply List.map_congr_left; intro i hi
+    simp only [Function.comp, mirrorPos, Bool.not_false, Prod.mk.injEq, and_true]
+    have : (i : Int) < (t - h).toNat := by exact_mod_cast List.mem_range.mp hi
+    omega
+
+/-- `mirror L` is the change of coordinates to the reverse-complemented record: a proper
+region and its mirror image read mirrored residues on the opposite strand, in the same order -/
+theorem den_mirror (L : Int) (r : Reg) (hp : proper r = true) :
+    den (mirror L r) = (den r).map (mirrorPos L) := by
+  induction r using Reg.ind with
+  | hs h t => exact den_mirror_seg L h t (by simpa [proper] using hp)
+  | hm rs ih =>
+    simp only [proper, Bool.and_eq_true] at hp
+    have H := properList_mem hp.2
+    simp only [mirror, den]
+    clear hp
+    induction rs with
+    | nil => rfl
+    | cons a tl ih2 =>
+      simp only [mirrorList, denList, List.map_append]
+      rw [ih a (List.mem_cons_self ..) (H a (List.mem_cons_self ..)),
+        ih2 (fun x hx => ih x (List.mem_cons_of_mem _ hx)) (fun x hx => H x (List.mem_cons_of_mem _ hx))]
+/-! ### offsets outside a flat region -/
+
+/-! #### step 1: the first segment's head -/
+
+theorem len_extHead_seg (h t a : Int) (ha : 0 ≤ a) : len (extHead a (seg h t)) = len (seg h t) + a := by
+  simp only [extHead]
+  split <;> simp only [len, gabs] <;> (repeat' split) <;> omega
+
+theorem len_extTail_seg (h t b : Int) (hb : 0 ≤ b) : len (extTail b (seg h t)) = len (seg h t) + b := by
+  simp only [extTail]
+  split <;> simp only [len, gabs] <;> (repeat' split) <;> omega
+
+/-- `HeadHead` on the head-extended segment, offsets shifted by the extension -/
+theorem resize_extHead_hh (h t a x y : Int) (ha : 0 ≤ a) :
+    resize (extHead a (seg h t)) (.headHead (x + a) (y + a)) = resize (seg h t) (.headHead x y) := by
+  simp only [extHead]
+  by_cases hth : t < h
+  · simp only [hth, ↓reduceIte, resize.eq_1, Mod.apply, Mod.applyFwd, Loc.gmax]
+    rw [if_pos (by omega)]
+    simp only [seg.injEq]; constructor <;> (repeat' split) <;> omega
+  · simp only [hth, ↓reduceIte, resize.eq_1, Mod.apply, Mod.applyFwd, Loc.gmax]
+    rw [if_neg (by omega)]
+    simp only [seg.injEq]; constructor <;> (repeat' split) <;> omega
+
+/-- `HeadTail{·, 0}` on the head-extended segment -/
+theorem resize_extHead_ht (h t a x : Int) (ha : 0 ≤ a) :
+    resize (extHead a (seg h t)) (.headTail (x + a) 0) = resize (seg h t) (.headTail x 0) := by
+  simp only [extHead]
+  by_cases hth : t < h
+  · simp only [hth, ↓reduceIte, resize.eq_1, Mod.apply, Mod.applyFwd, Loc.gmax]
+    rw [if_pos (by omega)]
+    simp only [seg.injEq]; constructor <;> (repeat' split) <;> omega
+  · simp only [hth, ↓reduceIte, resize.eq_1, Mod.apply, Mod.applyFwd, Loc.gmax]
+    rw [if_neg (by omega)]
+    simp only [seg.injEq]; constructor <;> (repeat' split) <;> omega
+
+/-- extending the first segment's head by `a` and shifting both offsets by `a` does not
+change the result of `Regions.Resize` -/
+theorem resizeCore_extFirst (h t a : Int) (rs : List Reg) (lo hi : Int) (ha : 0 ≤ a) :
+    resizeCore (extFirst a (seg h t :: rs)) (lo + a) (hi + a) = resizeCore (seg h t :: rs) lo hi := by
+  cases rs with
+  | nil => simp [extFirst, resizeCore, lens, findL, resizeNth, resize_extHead_hh h t a lo hi ha]
+  | cons r2 rest =>
+    simp only [extFirst, resizeCore, lens, findL, len_extHead_seg h t a ha]
+    have e1 : lo + a - (len (seg h t) + a) = lo - len (seg h t) := by omega
+    have e2 : hi + a - (len (seg h t) + a) = hi - len (seg h t) := by omega
+    have c1 : (len (seg h t) + a < lo + a) ↔ (len (seg h t) < lo) := by omega
+    have c2 : (len (seg h t) + a < hi + a) ↔ (len (seg h t) < hi) := by omega
+    simp only [c1, c2, e1, e2]
+    by_cases h1 : len (seg h t) < lo <;> by_cases h2 : len (seg h t) < hi
+    · simp [h1, h2, resizeNth, resizeSpan]
+    · simp [h1, h2, resizeNth]
+    · simp [h1, h2, resizeSpan, resize_extHead_ht h t a lo ha]
+    · simp [h1, h2, resizeNth, resize_extHead_hh h t a lo hi ha]
+
+/-! #### step 2: the last segment's tail -/
+
+theorem findL_cons (n : Int) (ls : List Int) (x : Int) (hne : ls ≠ []) :
+    findL (n :: ls) x = if n < x then ((findL ls (x - n)).1 + 1, (findL ls (x - n)).2) else (0, x) := by
+  cases ls with
+  | nil => exact absurd rfl hne
+  | cons m rest => rfl
+
+theorem lens_ne_nil {rs : List Reg} (h : rs ≠ []) : lens rs ≠ [] := by
+  cases rs with
+  | nil => exact absurd rfl h
+  | cons a tl => simp [lens]
+
+theorem extLast_ne_nil (b : Int) {rs : List Reg} (h : rs ≠ []) : extLast b rs ≠ [] := by
+  cases rs with
+  | nil => exact absurd rfl h
+  | cons a tl => cases tl <;> simp [extLast]
+
+theorem length_extLast (b : Int) (rs : List Reg) : (extLast b rs).length = rs.length := by
+  induction rs with
+  | nil => rfl
+  | cons a tl ih =>
+    cases tl with
+    | nil => rfl
+    | cons a2 tl2 => simp only [extLast, List.length_cons] at ih ⊢; omega
+
+/-- the walk never looks at the last element's length -/
+theorem findL_extLast (b : Int) (rs : List Reg) (x : Int) :
+    findL (lens (extLast b rs)) x = findL (lens rs) x := by
+  induction rs generalizing x with
+  | nil => rfl
+  | cons a tl ih =>
+    cases tl with
+    | nil => simp [extLast, lens, findL]
+    | cons a2 tl2 =>
+      simp only [extLast, lens.eq_2 a]
+      rw [findL_cons _ _ _ (lens_ne_nil (extLast_ne_nil b (by simp))), findL_cons _ _ _ (lens_ne_nil (by simp)),
+        ih]
+
+theorem findL_fst_lt (ls : List Int) (x : Int) (hne : ls ≠ []) : (findL ls x).1 < ls.length := by
+  induction ls generalizing x with
+  | nil => exact absurd rfl hne
+  | cons n tl ih =>
+    cases tl with
+    | nil => simp [findL]
+    | cons m rest =>
+      simp only [findL]
+      split
+      · have := ih (x - n) (by simp); simp only [List.length_cons] at this ⊢; omega
+      · simp
+
+theorem length_lens (rs : List Reg) : (lens rs).length = rs.length := by
+  induction rs with
+  | nil => rfl
+  | cons a tl ih => simp [lens, ih]
+
+/-- modifiers that do not read the tail of the pair they are applied to -/
+def Mod.tailFree : Mod → Bool
+  | .head _ => true
+  | .headHead _ _ => true
+  | _ => false
+
+theorem resize_extTail (b : Int) (hb : 0 ≤ b) (r : Reg) (m : Mod) (hm : m.tailFree = true) :
+    resize (extTail b r) m = resize r m := by
+  cases r with
+  | many rs => rfl
+  | seg h t =>
+    simp only [extTail]
+    cases m <;> simp [Mod.tailFree] at hm
+    all_goals
+      by_cases hth : t < h
+      · simp only [hth, ↓reduceIte, resize.eq_1, Mod.apply, Mod.applyFwd]
+        rw [if_pos (by omega)]
+      · simp only [hth, ↓reduceIte, resize.eq_1, Mod.apply, Mod.applyFwd]
+        rw [if_neg (by omega)]
+
+theorem resizeNth_extLast (b : Int) (hb : 0 ≤ b) (rs : List Reg) (k : Nat) (m : Mod) (hm : m.tailFree = true) :
+    resizeNth (extLast b rs) k m = resizeNth rs k m := by
+  induction rs generalizing k with
+  | nil => rfl
+  | cons a tl ih =>
+    cases tl with
+    | nil =>
+      cases k with
+      | zero => simp [extLast, resizeNth, resize_extTail b hb a m hm]
+      | succ k => simp [extLast, resizeNth]
+    | cons a2 tl2 =>
+      cases k with
+      | zero => simp [extLast, resizeNth]
+      | succ k => simp only [extLast, resizeNth]; exact ih k
+
+theorem resizeTail_extLast (b : Int) (hb : 0 ≤ b) (rs : List Reg) (k : Nat) (u : Int) (hk : k ≤ rs.length)
+    (hne : rs ≠ []) : resizeTail (extLast b rs) k u = resizeTail rs k u := by
+  induction rs generalizing k with
+  | nil => exact absurd rfl hne
+  | cons a tl ih =>
+    cases tl with
+    | nil =>
+      simp only [List.length_cons, List.length_nil] at hk
+      simp only [extLast, resizeTail.eq_2]
+      rw [if_pos (by omega), if_pos (by omega), resize_extTail b hb a _ rfl]
+    | cons a2 tl2 =>
+      simp only [extLast, resizeTail.eq_2 _ _ a]
+      split
+      · rfl
+      · rw [ih (k - 1) (by simp only [List.length_cons] at hk ⊢; omega) (by simp)]
+
+theorem resizeSpan_extLast (b : Int) (hb : 0 ≤ b) (rs : List Reg) (l k : Nat) (x u : Int)
+    (hl : l + 1 < rs.length) (hk : k < rs.length) :
+    resizeSpan (extLast b rs) l k x u = resizeSpan rs l k x u := by
+  induction rs generalizing l k with
+  | nil => simp at hl
+  | cons a tl ih =>
+    cases tl with
+    | nil => simp at hl
+    | cons a2 tl2 =>
+      cases l with
+      | zero =>
+        simp only [extLast, resizeSpan]
+        rw [resizeTail_extLast b hb (a2 :: tl2) k u (by simp only [List.length_cons] at hk ⊢; omega) (by simp)]
+      | succ l =>
+        simp only [extLast, resizeSpan]
+        exact ih l (k - 1) (by simp only [List.length_cons] at hl ⊢; omega)
+          (by simp only [List.length_cons] at hk hl ⊢; omega)
+
+/-- extending the last segment's tail does not change the result of `Regions.Resize` -/
+theorem resizeCore_extLast (b : Int) (hb : 0 ≤ b) (rs : List Reg) (lo hi : Int) :
+    resizeCore (extLast b rs) lo hi = resizeCore rs lo hi := by
+  by_cases hne : rs = []
+  · subst hne; rfl
+  · simp only [resizeCore, findL_extLast]
+    have hr := findL_fst_lt (lens rs) hi (lens_ne_nil hne)
+    rw [length_lens] at hr
+    split
+    · exact resizeNth_extLast b hb rs _ _ rfl
+    · split
+      · exact resizeNth_extLast b hb rs _ _ rfl
+      · rw [resizeSpan_extLast b hb rs _ _ _ _ (by omega) hr]
 end Gts
